@@ -25,7 +25,7 @@ pub const BUDGET_PER_L3: u64 = 50;
 
 pub fn budget_for(op: &Op) -> u64 {
     match op {
-        Op::Run { argv, .. } | Op::Launch { argv, .. } => {
+        Op::Run { argv, .. } | Op::Launch { argv, .. } | Op::Print { argv, .. } => {
             let l: u64 = argv.iter().map(|a| a.len() as u64 + 1).sum::<u64>() + 8;
             BUDGET_BASE + BUDGET_PER_L3 * l * l * l
         }
@@ -125,6 +125,21 @@ pub fn gen_case(seed: u64, run: u64, faults: bool) -> Case {
                     name,
                     comp,
                     cb,
+                }
+            }
+            12 if r.chance(1, 2) => {
+                // a failing or help-requesting line, printed at some width
+                let hostile = r.chance(1, 3);
+                let mut argv = gen::base_sentence(&mut r, &live[p], hostile);
+                gen::mutate(&mut r, &live[p], &mut argv);
+                argv.truncate(12);
+                Op::Print {
+                    p,
+                    argv,
+                    name,
+                    width: *r.pick(
+                        &[0usize, 1, 7, 20, 40, 99, 100, 101, 150, 188, 200, 1000, usize::MAX][..],
+                    ),
                 }
             }
             12..=13 => Op::Render {
@@ -250,6 +265,9 @@ fn exec_op(op: &Op, parser: &OptionParser<Val>) -> Obs {
             cb,
             ..
         } => exec::run_inner(parser, argv, name, *comp, *cb, budget_for(op)),
+        Op::Print {
+            argv, name, width, ..
+        } => exec::run_and_print(parser, argv, name, *width, budget_for(op)),
         Op::Render { what, app, cb, .. } => exec::render(parser, *what, app, *cb, budget_for(op)),
         Op::Check { .. } => exec::check_invariants(parser, budget_for(op)),
         _ => unreachable!(),
@@ -347,7 +365,7 @@ pub fn run_case(case: &Case, stats: &mut Stats) -> RunReport {
             _ => {}
         }
         let p = match op {
-            Op::Run { p, .. } | Op::Render { p, .. } | Op::Check { p } => *p,
+            Op::Run { p, .. } | Op::Render { p, .. } | Op::Check { p } | Op::Print { p, .. } => *p,
             _ => unreachable!(),
         };
         if p >= live.len() {
